@@ -323,8 +323,24 @@ theorem preRunC_spec (c : CDS) (lib : Lib) (r : Req) (h : c.Inv) :
 /-- The session (objects with their cache) and its specification are in step. -/
 def Session.Sim (s : Session) (t : Spec) : Prop := s.cds.Inv ∧ s.cds.ds = t.ds ∧ s.lib = t.lib
 
+theorem Session.doe_sim (s : Session) (t : Spec) (h : s.Sim t) (exec : Bool) (r : Req) :
+    (s.doe exec r).1.Sim (t.doe exec r).1 ∧ (s.doe exec r).2 = (t.doe exec r).2 := by
+  obtain ⟨hi, hd, hl⟩ := h
+  cases exec with
+  | true =>
+    obtain ⟨a, b, c, d⟩ := preRunC_spec s.cds s.lib r hi
+    simp only [Session.doe, Spec.doe, if_true]
+    rw [← hd, ← hl]
+    exact ⟨⟨b, a, c⟩, by rw [d]⟩
+  | false =>
+    obtain ⟨a, b, c, d⟩ := computeDoeC_spec s.cds s.lib r hi
+    simp only [Session.doe, Spec.doe, Bool.false_eq_true, if_false]
+    rw [← hd, ← hl]
+    exact ⟨⟨b, a, c⟩, by rw [d]⟩
+
 theorem Session.step_sim (tol : Rat) (s : Session) (t : Spec) (h : s.Sim t) (op : SOp) :
     (s.step tol op).1.Sim (t.step tol op).1 ∧ (s.step tol op).2 = (t.step tol op).2 := by
+  have h' := h
   obtain ⟨hi, hd, hl⟩ := h
   cases op with
   | edit op =>
@@ -336,18 +352,11 @@ theorem Session.step_sim (tol : Rat) (s : Session) (t : Spec) (h : s.Sim t) (op 
     simp only [Session.step, Spec.step]
     rw [CDS.ensure_data _ hi, normData_unnormalize, hd]
   | newLib => exact ⟨⟨hi, hd, rfl⟩, rfl⟩
-  | doe exec r =>
-    cases exec with
-    | true =>
-      obtain ⟨a, b, c, d⟩ := preRunC_spec s.cds s.lib r hi
-      simp only [Session.step, Spec.step, if_true]
-      rw [← hd, ← hl]
-      exact ⟨⟨b, a, c⟩, by rw [d]⟩
-    | false =>
-      obtain ⟨a, b, c, d⟩ := computeDoeC_spec s.cds s.lib r hi
-      simp only [Session.step, Spec.step, Bool.false_eq_true, if_false]
-      rw [← hd, ← hl]
-      exact ⟨⟨b, a, c⟩, by rw [d]⟩
+  | doe exec r => exact Session.doe_sim s t h' exec r
+  | custom exec cs =>
+    simp only [Session.step, Spec.step]
+    rw [hd]
+    exact Session.doe_sim s t h' exec (customReq t.ds cs)
 
 theorem Session.run_sim (tol : Rat) (ops : List SOp) : ∀ (s : Session) (t : Spec), s.Sim t →
     (Session.run tol s ops).1.Sim (Spec.run tol t ops).1 ∧ (Session.run tol s ops).2 = (Spec.run tol t ops).2 := by
